@@ -8,6 +8,11 @@
 //
 //	id  class  items  count  extent  dump  searches
 //
+// class    = layout, "big:" layout for the large spec-only populations, with the suffix "@k" when the
+//
+//	case ran rescaled by 2^k (items, queries; Extent and the dump are scaled back by the harness, so
+//	every field of the line is in lattice integers)
+//
 // items    = "minx,miny,maxx,maxy,id;..." or "-"
 // extent   = "minx,miny,maxx,maxy" or "none"
 // dump     = VerifDump() of the real tree, or "-" when the hook is not compiled in
@@ -45,8 +50,57 @@ type item struct {
 	id int
 }
 
+// curScale is the binary exponent of the case being run: every ordinate handed to the
+// implementation (items and queries alike) is the lattice integer times 2^curScale, an exact
+// rescaling as long as the values stay normal and finite (lattice |c| < 2^22, -1000 <= k <= 990).
+var curScale int
+
+func sc(c int) float64 { return math.Ldexp(float64(c), curScale) }
+
 func (b ibox) rt() rtree.Box {
-	return rtree.Box{MinX: float64(b.minx), MinY: float64(b.miny), MaxX: float64(b.maxx), MaxY: float64(b.maxy)}
+	return rtree.Box{MinX: sc(b.minx), MinY: sc(b.miny), MaxX: sc(b.maxx), MaxY: sc(b.maxy)}
+}
+
+// unscale divides the power of two out again (exact).
+func unscale(f float64) float64 { return math.Ldexp(f, -curScale) }
+
+// unscaleDump rewrites the ordinates of a VerifDump string back to the lattice.
+func unscaleDump(d string) string {
+	if curScale == 0 {
+		return d
+	}
+	t := strings.Fields(d)
+	for i := 0; i < len(t); i++ {
+		if t[i] == "L" || t[i] == "B" {
+			for j := 1; j <= 4 && i+j < len(t); j++ {
+				f, err := strconv.ParseFloat(t[i+j], 64)
+				if err != nil {
+					return d
+				}
+				t[i+j] = strconv.FormatFloat(unscale(f), 'g', -1, 64)
+			}
+			i += 4
+			if t[i-4] == "L" {
+				i++ // the record id
+			}
+		}
+	}
+	return strings.Join(t, " ")
+}
+
+// pickScale: exponent classes of the rescaled populations. Squared distances of the
+// implementation are exact for -537 <= k <= 489 (lattice gaps < 2^22: dx*dx+dy*dy is a multiple of
+// 2^-1074 and below 2^1024); beyond that range they underflow/overflow.
+func pickScale(r *lib.Rng) int {
+	switch r.Intn(10) {
+	case 0:
+		return []int{-537, -536, -512, -511, 488, 489, -1, 1, 52, -52, -1000, 990}[r.Intn(12)]
+	case 1, 2:
+		return r.Range(-1000, -538) // squares underflow
+	case 3:
+		return r.Range(490, 990) // squares overflow
+	}
+	return r.Range(-537, 489)
 }
 
 func (b ibox) String() string { return fmt.Sprintf("%d,%d,%d,%d", b.minx, b.miny, b.maxx, b.maxy) }
@@ -314,6 +368,7 @@ func main() {
 	qcls := map[string]int{}
 	acts := map[string]int{}
 	sizeHist := map[string]int{}
+	scales := map[string]int{}
 	searches := 0
 	hook := 0
 	// the last nBig cases (both tiers) are populations of 4097..5000 items, class "big:<layout>":
@@ -363,6 +418,23 @@ func main() {
 		default:
 			sizeHist["401-5000"]++
 		}
+		curScale = 0
+		if i%5 == 3 {
+			curScale = pickScale(r)
+		}
+		if big {
+			curScale = []int{0, -600, 300}[(i-a.N)%3]
+		}
+		switch {
+		case curScale == 0:
+			scales["unscaled"]++
+		case curScale < -537:
+			scales["below_-537_squares_underflow"]++
+		case curScale > 489:
+			scales["above_489_squares_overflow"]++
+		default:
+			scales["exact_-537..489"]++
+		}
 		items := genItems(r, layout, n)
 		bulk := make([]rtree.BulkItem, n)
 		var sb []string
@@ -377,11 +449,11 @@ func main() {
 		tree := rtree.BulkLoad(bulk)
 		ext := "none"
 		if b, ok := tree.Extent(); ok {
-			ext = fnum(b.MinX) + "," + fnum(b.MinY) + "," + fnum(b.MaxX) + "," + fnum(b.MaxY)
+			ext = fnum(unscale(b.MinX)) + "," + fnum(unscale(b.MinY)) + "," + fnum(unscale(b.MaxX)) + "," + fnum(unscale(b.MaxY))
 		}
 		dump := "-"
 		if d, ok := interface{}(tree).(interface{ VerifDump() string }); ok {
-			dump = d.VerifDump()
+			dump = unscaleDump(d.VerifDump())
 			hook++
 		}
 		var out []string
@@ -423,8 +495,11 @@ func main() {
 			return "f" + strconv.Itoa(r.Range(1, 99))
 		}
 		caseClass := layout
+		if curScale != 0 {
+			caseClass += "@" + strconv.Itoa(curScale)
+		}
 		if big {
-			caseClass = "big:" + layout
+			caseClass = "big:" + caseClass
 			bb := bound(items)
 			some := items[r.Intn(n)].b
 			for qn, q := range []ibox{
@@ -658,7 +733,7 @@ func main() {
 		fmt.Fprintf(w, "%d\t%s\t%s\t%d\t%s\t%s\t%s\n", i, caseClass, itemStr, tree.Count(), ext, dump, strings.Join(out, "|"))
 	}
 	stats := map[string]interface{}{"layouts": classes, "queries": qcls, "scripts": acts, "sizes": sizeHist,
-		"searches": searches, "trees_dumped_through_hook": hook, "max_population": maxN}
+		"searches": searches, "trees_dumped_through_hook": hook, "max_population": maxN, "scale_exponents": scales}
 	js, _ := json.Marshal(stats)
 	fmt.Fprintf(w, "#GEN\t%s\n", js)
 }
